@@ -87,6 +87,12 @@ def scenarios(tier):
                      post_cmds=post), 0 if q else 1))
     L.append((SC.scn("noisy-malformed-done-record-j1", noisy_world(32), ["redo --no-color top"], visible=VIS, log_mode=True,
                      post_cmds=post), 0 if q else 1))
+    # nothing but an unterminated line after the nested builds (no complete line in between that would bring the "resumed" mark)
+    uw = World("noisy-last", {"s": ["0", "1"]},
+               {"top.do": [S(deps=["a"], noise=1024)], "a.do": [S(deps=["s"], noise=1, out="file")]},
+               ["top", "a"], ["top"])
+    L.append((SC.scn("noisy-unterminated-line-right-after-a-nested-build-j1", uw, ["redo --no-color top"], visible=VIS, log_mode=True,
+                     post_cmds=post, unterminated=("top",), no_line4=("top",)), 0 if q else 1))
     # a partial line in front of each of two nested builds: the second one is written when another target's lines have been
     # shown in between, and a record follows it directly -- it is still a line of the script that wrote it
     pw = World("noisy-partials", {"s": ["0", "1"]},
@@ -112,6 +118,8 @@ def scenarios(tier):
                {"top.do": [S(deps=["m "], noise=1)], "m .do": [S(deps=["c"], noise=1, out="file")], "c.do": [S(deps=["s"], noise=1)]},
                ["top", "m ", "c"], ["top"])
     L.append((SC.scn("noisy-target-name-ends-in-space-j1", ww, ["redo --no-color top"], visible=VIS, log_mode=True, post_cmds=post), 0))
+    L.append((SC.scn("noisy-record-naming-what-no-target-can-be-called-j1", noisy_world(2048), ["redo --no-color top"], visible=VIS, log_mode=True,
+                     post_cmds=post), 0))
     L.append((SC.scn("noisy-record-with-empty-text-j1", noisy_world(128), ["redo --no-color top"], visible=VIS, log_mode=True,
                      post_cmds=post), 0))
     L.append((SC.scn("noisy-multibyte-character-cut-between-two-polls-j1", noisy_world(256), ["redo --no-color top"], visible=VIS,
@@ -155,6 +163,8 @@ def parse_raw(text):
         if not line.strip():
             continue
         m = RAW.match(line)
+        if m and "\0" in m.group(2):
+            m = None        # (names nothing a target can be called: a script's line, as for the viewer itself)
         if m:
             kind, t = m.groups()
             if kind in ("do", "resumed", "check"):
@@ -192,11 +202,17 @@ def judge_stream(name, pairs, targets, scn, out, times=None):
         # an unterminated last line is passed on as it is (no header of its own, possibly glued to what follows): judged only
         # for "every target's, exactly once"
         text = "\n".join(l for _c, l in pairs)
-        for t in targets:
+        for t in (targets if scn["unterminated"] is True else list(scn["unterminated"])):
             n = len(re.findall(r"L %s 6 no newline at the end" % re.escape(t), text))
             if n != 1:
                 out.append(({"kind": "unterminated-last-line-" + ("lost" if n == 0 else "duplicated"), "scenario": scn["name"],
                              "stream": name, "target": t}, {"count": n}))
+            else:
+                # ... and among the lines of the script that wrote it (after a nested target's lines that takes a "resumed")
+                hdr = [c for c, l in pairs if ("L %s 6 no newline at the end" % t) in l][0]
+                if hdr is None or hdr.split("/")[-1] != t:
+                    out.append(({"kind": "log-line-under-wrong-target", "scenario": scn["name"], "stream": name, "target": t, "seq": 6},
+                                {"header": hdr}))
     for pat, owner in scn.get("attributed", ()):
         hits = [(c, l) for c, l in pairs if pat in l]
         if len(hits) != 1:
@@ -226,7 +242,7 @@ def judge_stream(name, pairs, targets, scn, out, times=None):
                 out.append(({"kind": "lines-of-a-target-built-%d-times-not-shown-%d-times" % (n, n), "scenario": scn["name"], "stream": name,
                              "target": t}, {"seqs": seqs}))
             continue
-        if seqs != ORDER:
+        if seqs != [x for x in ORDER if not (x == 4 and t in scn.get("no_line4", ()))]:
             what = "missing" if len(seqs) < len(ORDER) else ("duplicated" if len(set(seqs)) < len(seqs) else "reordered")
             out.append(({"kind": "log-lines-" + what, "scenario": scn["name"], "stream": name, "target": t}, {"seqs": seqs}))
 
